@@ -131,6 +131,7 @@ def r31_memo(repo, sink):
                             sink.check(fresh or reset, "R31", f"memo-foreign-write:{c.name}.{g.name}:{t.attr}", (m.relpath, n.lineno),
                                        ok=f"{ref}.{t.attr} written on a freshly constructed object / memo reset",
                                        bad=f"{ref}.{t.attr} is written from outside without resetting {memo}")
+    _keyed_memos(repo, sink, gb)
     # positive example (no floor: a repair may remove the memo altogether)
     probe_src = (
         "class P:\n"
@@ -150,6 +151,46 @@ def r31_memo(repo, sink):
         sink.unknown("R31", "positive-example", None, "rule failed to flag the embedded stale memo")
     if not memos:
         sink.ok("R31", "no-memoised-getters", None, "no lazily memoised property left in src/finam")
+
+
+def _keyed_memos(repo, sink, gb):
+    """Process-wide memo tables (`CACHE[key] = E` with CACHE a module-level dict) in grid classes: every attribute of the
+    instance that the memoised value is computed from must take part in the key, otherwise two grids that differ only in
+    that attribute share one entry."""
+    for c in repo.all_classes():
+        if not repo.is_subclass(c, gb):
+            continue
+        for table in (c.getters, c.methods):
+            for g in table.values():
+                mod = g.module
+                for n in fn_walk(g.node):
+                    if not (isinstance(n, ast.Assign) and len(n.targets) == 1 and isinstance(n.targets[0], ast.Subscript)
+                            and isinstance(n.targets[0].value, ast.Name)):
+                        continue
+                    cache = n.targets[0].value.id
+                    init = mod.consts.get(cache)
+                    if not (isinstance(init, ast.Dict) or (isinstance(init, ast.Call) and call_name(init) in ("dict", "OrderedDict", "WeakValueDictionary"))):
+                        continue
+                    key = n.targets[0].slice
+                    if isinstance(key, ast.Name):
+                        defs = [d for d in fn_walk(g.node) if isinstance(d, ast.Assign) and any(isinstance(t, ast.Name) and t.id == key.id for t in d.targets)]
+                        key = defs[-1].value if defs else key
+                    concrete = [k for k in repo.subclasses(c) if not repo.is_abstract(k)] or [c]
+                    missing = set()
+                    for k in concrete:
+                        dv = _read_fields(repo, k, c, n.value, {g.qualname}) | _direct_reads(n.value)
+                        dk = _read_fields(repo, k, c, key, {g.qualname}) | _direct_reads(key)
+                        missing |= {x for x in dv - dk if not x.startswith("__")}
+                    # a public property read in the value but not in the key (its private fields are then missing too)
+                    pub = sorted(x for x in _direct_reads(n.value) - _direct_reads(key))
+                    sink.check(not pub and not missing, "R31", f"keyed-memo:{c.name}.{g.name}:{cache}", g,
+                               ok=f"the key of the process-wide memo {cache} covers everything the memoised value is computed from",
+                               bad=f"{c.name}.{g.name} keeps its result in the process-wide table {cache} under a key that leaves out {pub or sorted(missing)}, "
+                                   "which the value is computed from: two grids that differ only there share one entry (the second gets the first one's value)")
+
+
+def _direct_reads(expr):
+    return {n.attr for n in ast.walk(expr) if isinstance(n, ast.Attribute) and isinstance(n.value, ast.Name) and n.value.id == "self"}
 
 
 def _probe_flags(src):
@@ -375,7 +416,7 @@ def _tag_of(e, env):
 # reverses the axis order, `np.flip(x, axis=i)` toggles the direction of the grid axis that
 # currently sits at array position i.  This decides to_canonical / from_canonical for every
 # layout (1-3 D, both axis orders, every combination of axis directions) without numbers.
-from ..absbase import FinamInterp, Logger, Order  # noqa: E402
+from ..absbase import FinamInterp, Logger, Order, Ref  # noqa: E402
 from ..interp import Closure, Obj, Raised, Sym, Undecided  # noqa: E402
 
 
@@ -598,7 +639,14 @@ class _SibInterp(FinamInterp):
             return Sym(f.name, len(self.gen))
         if isinstance(fv, Closure) and getattr(fv.func, "name", "") == "gen_node_centers":
             return Sym("node_centers")
+        if isinstance(fv, Sym) and fv.op == "copy_of":
+            return fv.args[0]  # a copy of generated points / cells is the same table
         return super().call_hook(fv, args, kwargs, node, mod)
+
+    def get_attr(self, obj, attr, node, mod):
+        if isinstance(obj, Sym) and obj.op in ("gen_points", "gen_cells", "node_centers") and attr == "copy":
+            return Sym("copy_of", obj)
+        return super().get_attr(obj, attr, node, mod)
 
     def sym_item(self, c, k, node):
         if isinstance(c, Sym) and isinstance(k, Sym) and k.op == "slice" and k.args == (None, None, -1):
@@ -1062,10 +1110,50 @@ class _WCells(_CellTable):
         return f"cells<rows in {self.row_order} order, node ids in {self.id_order} numbering>"
 
 
+class _IdGrid:
+    """Point ids arranged on the point grid: np.arange(n_points).reshape(point dims, order): id = sum idx_k * stride_k."""
+
+    def __init__(self, dims, order, offsets=None, sliced=False):
+        self.dims, self.order, self.offsets, self.sliced = list(dims), order, list(offsets or [0] * len(dims)), sliced
+
+    def __repr__(self):
+        return f"point-id grid {self.dims} ({self.order}), offsets {self.offsets}"
+
+
 class _WholeCells(_CellInterp):
     def __init__(self, repo, n_syms):
         super().__init__(repo)
         self.n_syms = n_syms
+
+    def _pk(self, v):
+        """(k, c) if v denotes P_k + c."""
+        if isinstance(v, Sym) and v.op == "P":
+            return v.args[0], 0
+        if isinstance(v, Sym) and v.op == "Pc":
+            return v.args[0], v.args[1]
+        return None
+
+    def _pk_stop(self, v):
+        if v in self.n_syms:
+            return self.n_syms.index(v), -1  # N_k = P_k - 1
+        return self._pk(v)
+
+    def _id_column(self, g, order):
+        """Flattening the corner slice of a point-id grid in `order`: the node id of cell (i, j, k) as a polynomial term, tagged
+        with the order in which the cells are enumerated."""
+        I = [Sym("i"), Sym("j"), Sym("k")]
+        nd = len(g.dims)
+        strides, acc = [], 1
+        for k in (range(nd) if g.order == "F" else reversed(range(nd))):
+            strides.append((k, acc))
+            nk = self.n_syms[self._pk(g.dims[k])[0]]
+            acc = Sym("mul", acc, Sym("add", nk, 1)) if acc != 1 else Sym("add", nk, 1)
+        term = None
+        for k, st in sorted(strides):
+            idx = I[k] if g.offsets[k] == 0 else Sym("add", I[k], g.offsets[k])
+            t = idx if st == 1 else Sym("mul", st, idx)
+            term = t if term is None else Sym("add", term, t)
+        return Sym("cellcol", term, order, g.order)
 
     # dims are the point counts P_k = N_k + 1 > 1
     def compare(self, op, left, right, node):
@@ -1077,6 +1165,12 @@ class _WholeCells(_CellInterp):
     def binop(self, op, left, right, node):
         if isinstance(op, ast.Sub) and isinstance(left, Sym) and left.op == "P" and right == 1:
             return self.n_syms[left.args[0]]  # P_k - 1 = N_k
+        if isinstance(op, (ast.Add, ast.Sub)) and isinstance(right, int) and not isinstance(right, bool) and self._pk(left) is not None:
+            k, c = self._pk(left)
+            c = c + right if isinstance(op, ast.Add) else c - right
+            return Sym("P", k) if c == 0 else Sym("Pc", k, c)  # (P_k + c): slice bounds of corner slices
+        if isinstance(op, ast.Add) and isinstance(left, int) and not isinstance(left, bool) and self._pk(right) is not None:
+            return self.binop(op, right, left, node)
         if isinstance(left, Sym) and left.op == "colvec":
             cols = right
             if isinstance(cols, (list, tuple)) and isinstance(op, ast.Add):
@@ -1102,6 +1196,8 @@ class _WholeCells(_CellInterp):
                 out = Sym("mul", out, x)
             return out
         if short == "arange":
+            if args and _mentions_p(args[0]):
+                return Sym("RP", args[0])  # running point id
             return Sym("R")
         if short == "empty":
             shape = args[0]
@@ -1126,14 +1222,45 @@ class _WholeCells(_CellInterp):
     def builtin(self, name, args, kwargs, node):
         if name == "int":
             return args[0]
+        if name == "slice":
+            return slice(*args)
         return super().builtin(name, args, kwargs, node)
+
+    def global_name(self, name, mod):
+        if name == "slice":
+            return Sym("builtin", "slice")
+        return super().global_name(name, mod)
 
     def get_attr(self, obj, attr, node, mod):
         if isinstance(obj, Sym) and obj.op == "ext" and attr == "newaxis":
             return None
+        if isinstance(obj, Sym) and obj.op == "RP" and attr == "reshape":
+            return Sym("method", obj, "reshape")
+        if isinstance(obj, _IdGrid):
+            if attr == "shape":
+                return tuple(obj.dims)
+            if attr in ("reshape", "ravel", "flatten"):
+                return Sym("method", Ref(obj), attr)
         return super().get_attr(obj, attr, node, mod)
 
     def call_hook(self, fv, args, kwargs, node, mod):
+        if isinstance(fv, Sym) and fv.op == "builtin" and fv.args[0] == "slice":
+            return slice(*args)
+        if isinstance(fv, Sym) and fv.op == "method":
+            recv, meth = fv.args
+            order = kwargs.get("order", "C")
+            if isinstance(recv, Sym) and recv.op == "RP" and meth == "reshape":
+                dims = args[0] if len(args) == 1 else args
+                if not (isinstance(dims, (list, tuple)) and all(self._pk(d) is not None and self._pk(d)[1] == 0 for d in dims)):
+                    raise AnalysisError("point ids reshaped to something else than the point grid")
+                return _IdGrid(dims, order)
+            if isinstance(recv, Ref) and isinstance(recv.obj, _IdGrid):
+                g = recv.obj
+                if meth == "reshape" and not (args and args[0] in (-1, (-1,), [-1])):
+                    raise AnalysisError("corner slice reshaped to something else than a flat column")
+                if not g.sliced:
+                    raise AnalysisError("the whole point-id grid is flattened (no corner slice)")
+                return self._id_column(g, order)
         if isinstance(fv, Closure) and getattr(fv.func, "name", "") == "order_map":
             shape = args[0]
             of = kwargs.get("of", args[1] if len(args) > 1 else "F")
@@ -1143,6 +1270,17 @@ class _WholeCells(_CellInterp):
         return super().call_hook(fv, args, kwargs, node, mod)
 
     def get_item(self, c, k, node):
+        if isinstance(c, _IdGrid):
+            ks = k if isinstance(k, tuple) else (k,)
+            if len(ks) != len(c.dims) or not all(isinstance(x, slice) for x in ks):
+                raise AnalysisError("point-id grid indexed by something else than one slice per axis")
+            offs = []
+            for ax, sl in enumerate(ks):
+                stop = self._pk_stop(sl.stop)
+                if not (isinstance(sl.start, int) and sl.step is None and stop is not None and stop[0] == self._pk(c.dims[ax])[0] and stop[1] == sl.start - 1):
+                    raise _IdxTypeError(f"corner slice {sl.start}:{sl.stop!r} of axis {ax} does not select one corner of every cell (offset .. offset + N)")
+                offs.append(sl.start)
+            return _IdGrid(c.dims, c.order, offs, sliced=True)
         if isinstance(c, Sym) and isinstance(k, tuple) and len(k) == 2 and k[1] is None:
             return Sym("colvec", c)
         if isinstance(c, _IdxMap) and isinstance(k, _WCells):
@@ -1163,8 +1301,22 @@ class _WholeCells(_CellInterp):
             return n
         return super().get_item(c, k, node)
 
+    def set_item(self, c, k, v, node):
+        if isinstance(c, _WCells) and isinstance(v, Sym) and v.op == "cellcol":
+            term, row_order, id_order = v.args
+            others = getattr(c, "_col_orders", set())
+            others.add((row_order, id_order))
+            c._col_orders = others
+            if len(others) > 1:
+                raise _IdxTypeError(f"the node columns enumerate the cells / number the nodes in different orders: {sorted(others)}")
+            c.row_order, c.id_order = row_order, id_order
+            v = term
+        super().set_item(c, k, v, node)
+
     def e_Subscript(self, e, env, mod):
         cval = self.eval(e.value, env, mod)
+        if isinstance(cval, _IdGrid):
+            return self.get_item(cval, self.eval(e.slice, env, mod), e)
         if isinstance(cval, Sym) and isinstance(e.slice, ast.Tuple) and len(e.slice.elts) == 2 and isinstance(e.slice.elts[0], ast.Slice):
             return self.get_item(cval, (None, self.eval(e.slice.elts[1], env, mod)), e)
         if isinstance(cval, (_WCells, _IdxMap)):
@@ -1172,6 +1324,14 @@ class _WholeCells(_CellInterp):
             if isinstance(k, (_WCells, _IdxMap)):
                 return self.get_item(cval, k, e)
         return super().e_Subscript(e, env, mod)
+
+
+def _mentions_p(v):
+    if isinstance(v, Sym):
+        return v.op in ("P", "Pc") or any(_mentions_p(a) for a in v.args)
+    if isinstance(v, (list, tuple)):
+        return any(_mentions_p(a) for a in v)
+    return False
 
 
 def r32e_gen_cells(repo, sink):
